@@ -446,6 +446,19 @@ static void genCorpus(const std::string& dir)
     save(db, dir, "nf:Db", k);
     delete db;
   }
+  {
+    // a Db as users save them: selection, weight and code besides coordinates and two variables (single-rank locators)
+    int nech = 6;
+    VectorDouble tab;
+    for (int i = 0; i < nech * 7; i++)
+    {
+      int col = i / nech, e = i % nech;
+      tab.push_back(col == 4 ? (double)(e % 3 != 0) : col == 5 ? 1. + 0.25 * e : col == 6 ? (double)(1 + e % 2) : 0.75 * e - col);
+    }
+    Db* db = Db::createFromSamples(nech, ELoadBy::COLUMN, tab, {"x", "y", "z", "t", "keep", "wgt", "unit"}, {"x1", "x2", "z1", "z2", "sel", "w", "code"}, false);
+    save(db, dir, "nf:Db", 3);
+    delete db;
+  }
   // DbGrid (rotated for k=1)
   for (int k = 0; k < 2; k++)
   {
